@@ -137,6 +137,23 @@ def run_pairing(ctx: Ctx) -> RuleResult:
                 if c.func.attr == 'rpartition' and c.args and const_str(c.args[0]) == '\n' and idx in ('2', '-1') \
                         and recv in (tok_param, tok_param + '.value'):
                     ok = True
+        # ... and a newline token WITHOUT a newline (a comment at end of input) contributes no indentation at all:
+        # the split must be conditional on the separator being present, with '' otherwise
+        if ok:
+            v0 = defs[0].value
+            cond_ok = isinstance(v0, ast.IfExp) and _contains_in_test(v0.test, "'\\n'", recv) and isinstance(v0.orelse, ast.Constant) \
+                and v0.orelse.value == '' and any(x is splits[0] for x in ast.walk(v0.body))
+            if not cond_ok:
+                # or: an earlier `if '\n' not in token: return`
+                for st in hnl.node.body:
+                    if isinstance(st, ast.If) and isinstance(st.test, ast.Compare) and isinstance(st.test.ops[0], ast.NotIn) \
+                            and const_str(st.test.left) == '\n' and any(isinstance(x, ast.Return) for x in st.body) \
+                            and st.lineno < defs[0].lineno:
+                        cond_ok = True
+            res.ob(site_h, 'a newline token that contains no newline yields empty indentation (no INDENT/DEDENT)', cond_ok)
+            if not cond_ok:
+                fail(hnl, defs[0], 'for a newline token without a newline (a comment ending the input) the whole token is measured as '
+                                   'indentation: a spurious INDENT / DedentError where CPython produces neither', 'indent-text-no-newline')
         res.ob(site_h, 'the counted text is what follows the LAST newline of the newline token', ok)
         if not ok:
             fail(hnl, defs[0] if defs else hnl.node, 'indentation is not taken from the text after the last newline of the token',
